@@ -17,7 +17,8 @@ NUMBA_DISABLE_JIT=1, ~2 ms per call, used for the large case counts and the exha
 Search / oracle (written from the property statement, independent of the model): brute-force nearest target
 in exact rational arithmetic, zero iff target, recorded target is real and is the one all three outputs refer
 to, never below the true nearest distance, never above max_distance, NaN in one output iff in all, no NaN when
-unbounded with >= 1 target, exact for a single target and on grids with H,W <= 3.
+unbounded with >= 1 target, exact for a single target and on grids with H,W <= 3.  35 % of the rasters carry affinely
+re-scaled coordinates (offsets up to 1e7, cells 1e-6 .. 1e4: `gen_affine`); the oracle works on the float coordinates as given.
 """
 import itertools
 import json
